@@ -56,6 +56,9 @@ for cons in ['boundaryConditionsTerm1D/face=right', 'boundaryConditionsTerm2D/fa
              'boundaryConditionsTermCylindrical3D/face=top', 'boundaryConditionsTermCylindrical3D/face=front',
              'boundaryConditionsTermPolar2D/face=top', 'boundaryConditionsTermSpherical3D/face=top', 'boundaryConditionsTermSpherical3D/face=front']:
     known('C03', 'B3', 'boundary.' + cons + '[consistent-only-for-equal-end-cells]', PER)
+    # the same finding seen by the checks that re-decide C03.B3 as a lemma (periodic closure of the flux balance / of the solved system)
+    for dep in ('C01', 'C04'):
+        known(dep, 'B3', 'boundary.' + cons + '[consistent-only-for-equal-end-cells]', PER + f" (lemma rule of C03 re-decided by {dep}.)")
 fixed('C03', 'select the periodic or Robin ghost values of the back/front', 'B3/B4 cellValuesWithBoundaries3D/Cylindrical3D/Spherical3D: z-block guarded by the bottom/top periodic flags')
 fixed('C05', 'forwards the optional u_upwind', 'E3u convectionUpwindTerm dispatcher drops u_upwind on 6 of 9 classes')
 fixed('C11', 'harmonicMean returns 0', 'W8 harmonicMean 2D/3D: 0/0 = nan for two adjacent zeros')
